@@ -398,6 +398,50 @@ for pow2 in (True, False):
     c.nested_env = nested_env
 
 
+# synchronised contexts (delays configured): each side computes its flags from ITS OWN index (always up to date)
+# and the synchronised copy of the other side's index (lags behind, which only makes the flag conservative):
+#   producer:  full <=> next(own write index) == copy of read index      empty <=> own write index == copy of read index
+#   consumer:  full <=> next(copy of write index) == own read index      empty <=> copy of write index == own read index
+def sync_flags_spec(sx):
+    it = sx.it
+    f = it.fifo.fields
+    N = f["_max_index"] + 1
+    own_wr, own_rd = f["_set_write_index"].fields["f_cur"], f["_set_read_index"].fields["f_cur"]
+    cp_wr, cp_rd = f["_write_index"].fields["f_cur"], f["_read_index"].fields["f_cur"]
+    want = {
+        "_full_in_sender": sym.eq(ring_next(own_wr, N), cp_rd), "_empty_in_sender": sym.eq(own_wr, cp_rd),
+        "_full_in_receiver": sym.eq(ring_next(cp_wr, N), own_rd), "_empty_in_receiver": sym.eq(cp_wr, own_rd),
+    }
+
+    def holds(res):
+        conds = []
+        for name, w in want.items():
+            if f[name].fields["f_nxt"] is None:
+                return False
+            conds.append(sym.eq(sym.to_z3(sym.to_int(nxt(f[name]))) != 0, w))
+        return sym.And(*conds)
+
+    return C.Pred(holds, "each side's flags from its own index and the synchronised copy of the other index")
+
+
+con = contract("cohdl.std.utility:Fifo.__init__.<logic (synchronised flags)>", PROPS)
+con.custom_fn = Fifo.__dict__["__init__"]
+con.nested = [("logic", 0)]
+for pow2 in (True, False):
+    c = mk_case(con, "pow2" if pow2 else "not-pow2", [], sync_flags_spec, pow2)
+    shp = fifo_shape(pow2, True)
+    c.extra_shapes = [shp]
+
+    def nested_env_sync(it, shp=shp):
+        env = it.case_env
+        it.fifo = shp.make(None, env)
+        for nm in ("_full_in_sender", "_empty_in_sender", "_full_in_receiver", "_empty_in_receiver"):
+            it.fifo.fields[nm] = sig(nm, None, z3.Int(nm + "_bit"))
+        return {"self": it.fifo}
+
+    c.nested_env = nested_env_sync
+
+
 # ---- Stack --------------------------------------------------------------------------------------------------------------------
 from cohdl.std import _core_utility as CU  # noqa: E402
 
